@@ -97,7 +97,10 @@ func FinishVoid(fns ...func()) {
 // ForEach maps all elements from given generate but no output.
 func ForEach[T any](generate GenerateFunc[T], mapper ForEachFunc[T], opts ...Option) {
 	options := buildOptions(opts...)
-	panicChan := &onceChan{channel: make(chan any)}
+	panicChan := newOnceChan()
+	// nobody receives from panicChan after ForEach returns,
+	// release the goroutines that panic afterwards, otherwise they leak.
+	defer panicChan.close()
 	source := buildSource(generate, panicChan)
 	collector := make(chan any)
 	done := make(chan struct{})
@@ -130,7 +133,7 @@ func ForEach[T any](generate GenerateFunc[T], mapper ForEachFunc[T], opts ...Opt
 // and reduces the output elements with given reducer.
 func MapReduce[T, U, V any](generate GenerateFunc[T], mapper MapperFunc[T, U], reducer ReducerFunc[U, V],
 	opts ...Option) (V, error) {
-	panicChan := &onceChan{channel: make(chan any)}
+	panicChan := newOnceChan()
 	source := buildSource(generate, panicChan)
 	return mapReduceWithPanicChan(source, panicChan, mapper, reducer, opts...)
 }
@@ -138,7 +141,7 @@ func MapReduce[T, U, V any](generate GenerateFunc[T], mapper MapperFunc[T, U], r
 // MapReduceChan maps all elements from source, and reduce the output elements with given reducer.
 func MapReduceChan[T, U, V any](source <-chan T, mapper MapperFunc[T, U], reducer ReducerFunc[U, V],
 	opts ...Option) (V, error) {
-	panicChan := &onceChan{channel: make(chan any)}
+	panicChan := newOnceChan()
 	return mapReduceWithPanicChan(source, panicChan, mapper, reducer, opts...)
 }
 
@@ -251,12 +254,26 @@ func executeMappers[T, U any](mCtx mapperContext[T, U]) {
 func mapReduceWithPanicChan[T, U, V any](source <-chan T, panicChan *onceChan, mapper MapperFunc[T, U],
 	reducer ReducerFunc[U, V], opts ...Option) (val V, err error) {
 	options := buildOptions(opts...)
+	// nobody receives from panicChan after this func returns,
+	// release the goroutines that panic afterwards, otherwise they leak.
+	defer panicChan.close()
 	// output is used to write the final result
 	output := make(chan V)
 	defer func() {
-		// reducer can only write once, if more, panic
-		for range output {
-			panic("more than one element written in reducer")
+		// wait for the reducer to finish, a mapper or the reducer can still panic meanwhile
+		for {
+			select {
+			case v := <-panicChan.channel:
+				drain(output)
+				panic(v)
+			case _, ok := <-output:
+				if !ok {
+					return
+				}
+
+				// reducer can only write once, if more, panic
+				panic("more than one element written in reducer")
+			}
 		}
 	}()
 
@@ -311,6 +328,9 @@ func mapReduceWithPanicChan[T, U, V any](source <-chan T, panicChan *onceChan, m
 
 	select {
 	case <-options.ctx.Done():
+		// the result is decided, and cancel waits for the generator to quit,
+		// so a panicking generator must not wait for us to receive the panic.
+		panicChan.close()
 		cancel(context.DeadlineExceeded)
 		err = context.DeadlineExceeded
 	case v := <-panicChan.channel:
@@ -370,12 +390,32 @@ func (gw guardedWriter[T]) Write(v T) {
 }
 
 type onceChan struct {
-	channel chan any
-	wrote   int32
+	channel   chan any
+	quit      chan struct{}
+	closeOnce sync.Once
+	wrote     int32
 }
 
+func newOnceChan() *onceChan {
+	return &onceChan{
+		channel: make(chan any),
+		quit:    make(chan struct{}),
+	}
+}
+
+// close tells the writers that nobody receives from the channel anymore.
+func (oc *onceChan) close() {
+	oc.closeOnce.Do(func() {
+		close(oc.quit)
+	})
+}
+
+// write hands val over to the receiver, or gives up if the receiver is gone.
 func (oc *onceChan) write(val any) {
 	if atomic.CompareAndSwapInt32(&oc.wrote, 0, 1) {
-		oc.channel <- val
+		select {
+		case oc.channel <- val:
+		case <-oc.quit:
+		}
 	}
 }
